@@ -9,6 +9,7 @@ mod c01;
 mod c02;
 mod c03;
 mod c04;
+mod c05;
 mod cat;
 mod lex;
 mod selftest;
@@ -77,6 +78,8 @@ fn registry(property: &str) -> Option<(RunFn, ReplayFn)> {
         "C02" => Some((c02::run, c02::replay)),
         "C03" => Some((c03::run, c03::replay)),
         "C04" => Some((c04::run, c04::replay)),
+        "C05" => Some((c05::run_c05, c05::replay_c05)),
+        "C19" => Some((c05::run_c19, c05::replay_c19)),
         _ => None,
     }
 }
